@@ -9,7 +9,9 @@ The real HeapBalancerSink / ApertureBalancerSink is driven with
     completed by the script, Close() calls counted - and, where the script says so, raising after
     the channel was closed (teardown error on a dead peer) -, requests held until the script
     completes them by reply / error / timeout (drain from the top of the sink stack) / connection
-    fault, late arrivals after a drain),
+    fault, late arrivals after a drain; options scripted per channel / endpoint: Close() fails the
+    requests still in flight SYNCHRONOUSLY (as the mux transport's _Shutdown does: the balancer is
+    re-entered from inside Close()); Open() raises synchronously),
   * a mock server-set provider (initial list, a GetServers that can block so notifications land
     while the initial list is loading, serial delivery of join/leave notifications incl. duplicate
     joins, leaves of unknown members and re-joins; an exception raised by a callback is logged by
@@ -49,6 +51,11 @@ ASSUMPTIONS = [
   'a Close() that raises has closed the channel first (state Closed, CloseSeen logged); the exception reaches '
   'whoever called into the balancer: the provider\'s delivery worker (logged, next notification delivered) or the '
   'completing caller (recorded as Raised)',
+  'an Open() that raises synchronously leaves its channel Closed; it is scripted only for channels created after '
+  'the balancer\'s own Open() (a raising initial Open() kills _OpenImpl: the balancer never opens - not a C03-C05 matter) '
+  'and only in C05 histories (an expansion inside a dispatch then raises into the dispatching caller)',
+  'a flushing Close() completes the requests in flight on that channel (kind closed) after the channel is Closed and '
+  'before Close() returns',
   'the aperture model (HeapBalancer with Aperture = TRUE) and the aperture family configure load-based resizing '
   'and jitter off; the seeded random histories also run with them on',
   'a livelock of the code under test is cut by a CPU-time watchdog (10 s) and an exception it raises into its '
@@ -61,7 +68,11 @@ RULE = {
          'every load pattern of 0/1, the replacement is pulled in inside the dispatch that finds it at the heap '
          'root, its Open() completes at once / after the j-th next dispatch / from a spawned greenlet; a second '
          'member failing afterwards) plus seeded random histories of the same kind, and TLC-simulated '
-         'behaviours of HeapBalancer (heap and aperture); non-trivial = at least 3 dispatches with >= 2 '
+         'behaviours of HeapBalancer (heap and aperture); joins of listed members delivered by the provider\'s own '
+         'worker while GetServers is still loading, followed by uncompleted traffic and the member\'s leave '
+         '(enumerated + random); channels whose Close() fails their in-flight requests synchronously with 2-3 members '
+         'down and loaded at once and one of them leaving (enumerated over members x rotation x loads + random); '
+         'outstanding requests are counted per MEMBER over the nodes in use; non-trivial = at least 3 dispatches with >= 2 '
          'members in use and at least one completion, channel flip or membership change before the last dispatch; '
          'distinct by canonical event list',
   'C04': 'same engine, histories weighted towards every completion kind (reply, error, timeout then late reply, '
@@ -75,7 +86,10 @@ RULE = {
          'sequence (notifications landing while GetServers blocks, early/late snapshot, provider failure and '
          'retry), leaves of idle / down / loaded members whose channel Close() raises (scripted per channel or '
          'per endpoint: 1st / 2nd Close) followed by re-joins, further leaves and dispatches - enumerated and '
-         'seeded random -, plus TLC-simulated behaviours of LbBase; non-trivial = at least 2 notifications of which one is '
+         'seeded random -, expansions whose new channel\'s Open() raises synchronously followed by further '
+         'expansions and the endpoint\'s leave, contractions (jitter timer / decayed load peak) with a dead node in '
+         'the aperture followed by duplicate joins and the other members leaving (both enumerated + random), '
+         'plus TLC-simulated behaviours of LbBase; non-trivial = at least 2 notifications of which one is '
          'a duplicate join, an unknown leave, a re-join or lands before loading completes; distinct by canonical '
          'event list',
 }
@@ -137,8 +151,12 @@ def models(prop, tier):
   apm = dict(module='HeapBalancer', cfg='HeapBalancer_apm.cfg', timeout=7200, heap='24g',
              what='aperture of 2 over 3 endpoints, 4 node objects, loads <= 1: join / leave / re-join (replacement of a '
                   'departed member from the idle set), duplicate joins, unknown leaves, channel down / up, exhaustive')
+  join_s = dict(module='LbBase', cfg='LbBase_joinS.cfg', expect_violation='NoDuplicateNodes',
+                what='counterexample generator: a join callback that does not wait for __init_done (JoinWaits = FALSE): a join '
+                     'delivered while GetServers is loading creates a node, the _servers reset forgets it and the listing '
+                     'adds the member again: two heap nodes for one member')
   if prop == 'C03':
-    return [m6, m6u, m4f, ap, ap_s] if quick else [m6, m6u, m5u, m4f, ap, ap_s, ap4, apm, m7]
+    return [m6, m6u, m4f, ap, ap_s, join_s] if quick else [m6, m6u, m5u, m4f, ap, ap_s, join_s, ap4, apm, m7]
   if prop == 'C04':
     return [m3d, m4m, gate, gate_s] if quick else [m3d, m4m, gate, gate_s, m4f, m4d]
   close_s = dict(module='LbBase', cfg='LbBase_closeS.cfg', expect_violation='QuietOK',
@@ -146,7 +164,7 @@ def models(prop, tier):
                       '(PopFirst = FALSE): a leave whose channel Close() raises keeps the entry, the re-join is dropped as a '
                       'duplicate and a current member is not eligible (leave, join, worker run)')
   if prop == 'C05':
-    return [lb, close_s, gate, m4m] if quick else [lb, close_s, gate, m4m, m4f]
+    return [lb, close_s, join_s, gate, m4m] if quick else [lb, close_s, join_s, gate, m4m, m4f]
   raise ValueError(prop)
 
 
@@ -259,6 +277,7 @@ def _drive(script):
     dirty = False
     pre_u = {}            # r -> U snapshot taken just before the choice
     pre_base = {}         # r -> number of channels that existed before the choice
+    pre_pos = {}          # r -> length of the event log just before the choice
     pol = script.get('pol', 'auto')
     nodeobjs = {}         # cid -> Node object (internal, optional)
     degraded = set()
@@ -271,9 +290,15 @@ def _drive(script):
     cfail = {}            # cid -> set of k: the k-th Close() of that channel raises (after closing)
     cfail_ep = {}
     ep_closes = {}
+    cflush = set(int(x) for x in script.get('cflush', []))   # channels whose Close() fails their pending requests synchronously
+    cflush_all = bool(script.get('cflush_all'))
+    ofail_ep = {}         # eid -> set of k: the k-th Open() over all channels of that endpoint raises synchronously
+    ep_opens = {}
     cfail_all = bool(script.get('cfail_all'))
   for _cid, _k in script.get('cfail', []):
     H.cfail.setdefault(int(_cid), set()).add(int(_k))
+  for _eid, _k in script.get('ofail_ep', []):
+    H.ofail_ep.setdefault(int(_eid), set()).add(int(_k))
   for _eid, _k in script.get('cfail_ep', []):     # the k-th Close() over all channels of an endpoint raises
     H.cfail_ep.setdefault(int(_eid), set()).add(int(_k))
 
@@ -389,6 +414,12 @@ def _drive(script):
 
     def Open(self):
       self.opens += 1
+      H.ep_opens[self.eid] = H.ep_opens.get(self.eid, 0) + 1
+      if H.ep_opens[self.eid] in H.ofail_ep.get(self.eid, ()):
+        # the layer below cannot even be set up: Open() raises synchronously into the balancer
+        self._st = ChannelState.Closed
+        emit({'e': 'OpenRaised', 'n': self.cid})
+        raise OSError(24, 'Too many open files')
       if self.pol == 'sync':
         self._st = ChannelState.Open
         return AsyncResult.Complete()
@@ -414,11 +445,19 @@ def _drive(script):
       self._st = ChannelState.Closed
       self.open_ar = None
       H.ep_closes[self.eid] = H.ep_closes.get(self.eid, 0) + 1
+      flush = []
+      if H.cflush_all or self.cid in H.cflush:
+        flush = [q for q in outstanding() if q['chan'] is self]
       if H.cfail_all or self.closes in H.cfail.get(self.cid, ()) or H.ep_closes[self.eid] in H.cfail_ep.get(self.eid, ()):
         # the channel is closed, but its teardown raises into the balancer (socket error on a dead peer)
         emit({'e': 'CloseSeen', 'n': self.cid, 'x': 1})
         raise OSError(107, 'Transport endpoint is not connected')
       emit({'e': 'CloseSeen', 'n': self.cid})
+      # like the mux transport's _Shutdown: the requests still in flight are failed synchronously, inside
+      # Close(); each failure unwinds through the balancer's frame (re-entering it) before Close() returns
+      for q in flush:
+        if q['state'] == 'out':
+          complete(q, 'closed', None)
 
     def AsyncProcessRequest(self, sink_stack, msg, stream, headers):
       on_receive(self, sink_stack, msg)
@@ -479,7 +518,17 @@ def _drive(script):
          'fresh': fresh, 'hasU': 0 if u is None else 1, 'U': u or []}
     if dead:
       d['dead'] = 1       # the request had already completed (timed out while parked) when it was dispatched
-    emit(d)
+    # Disp is logged at the position of the CHOICE (U and the reference counts are those of that moment): after
+    # the Create events of members admitted inside __Get, before whatever the same dispatch caused after the
+    # choice (aperture adjustment in _OnGet: closes, requests failed synchronously by such a close)
+    pos = H.pre_pos.pop(r, None)
+    if pos is not None and pos < len(ev):
+      while pos < len(ev) and ev[pos]['e'] == 'Create':
+        pos += 1
+      ev.insert(pos, d)
+      H.dirty = True
+    else:
+      emit(d)
     rq['state'] = ('dropped' if dead else 'out') if ch else 'done'
 
   def on_receive(ch, sink_stack, msg):
@@ -589,6 +638,7 @@ def _drive(script):
       r = msg.properties.get('vr')
       H.pre_u[r] = snapshot_u()
       H.pre_base[r] = len(H.chans)
+      H.pre_pos[r] = len(ev)
       return orig(sink_stack, msg, stream, headers)
     try:
       b._AsyncProcessRequestImpl = hooked
@@ -724,6 +774,8 @@ def _drive(script):
     if gated():
       return
     for rq in outstanding():
+      if rq['state'] != 'out':
+        continue          # failed meanwhile by a flushing Close() that an earlier completion caused
       complete(rq, 'reply', None)
       end()
     loop.settle()
@@ -1210,6 +1262,280 @@ def _gen_closefail(rng, kind):
   return sc
 
 
+def _family_early_join():
+  """A watch-style provider: join notifications are delivered by the provider's own worker while the
+  opening greenlet is still inside GetServers() (the initial listing is loading) - for members that are
+  ALSO part of the listing (already in the set, or new and listed by a late snapshot).  Then traffic
+  without completions (2n+1 requests over n members), the early-announced member leaves, more traffic,
+  completions, traffic.  Enumerated: heap / aperture (all active; min_size 1) x initial set x early /
+  late snapshot x which members are announced early x channel open policy."""
+  out = []
+  for kind, minsz in (('heap', 0), ('aperture', 3), ('aperture', 1)):
+    for s0 in ([1, 2, 3], [1, 2]):
+      for mode in ('early', 'late'):
+        for joins in ([1], [2, 1], [3], [1, 2, 3]):
+          for pol in ('sync', 'auto'):
+            n = len(set(s0) | (set(joins) if mode == 'late' else set()))
+            ops = [['open'], ['settle']] + [['join', e, -1] for e in joins] + [['release', -1], ['settle']]
+            ops += [['disp', 0, 0]] * (2 * n + 1) + [['leave', joins[0], -1]] + [['disp', 0, 0]] * (n + 2)
+            ops += [['comp', 0, 'reply', 0]] * 3 + [['disp', 0, 0]] * 3 + [['probe']]
+            sc = {'kind': kind, 's0': s0, 'rseed': 1, 'pol': pol, 'shuffle_id': True, 'load': {'mode': mode}, 'ops': ops}
+            if kind == 'aperture':
+              ap = dict(AP_FIXED)
+              ap.update(min_size=minsz, max_size=2 ** 31)
+              sc['ap'] = ap
+            out.append(sc)
+  return out
+
+
+def _gen_early_join(rng, kind):
+  """Random variant of _family_early_join: several notifications (mostly joins of listed members) land
+  while GetServers blocks, then dispatch-heavy traffic with leaves and re-joins."""
+  names = [1, 2, 3, 4]
+  s0 = sorted(rng.sample(names, rng.choice([1, 2, 3, 3, 4])))
+  sc = {'kind': kind, 's0': s0, 'rseed': rng.randint(0, 10 ** 6), 'pol': rng.choice(['sync', 'auto', 'auto', 'manual']),
+        'load': {'mode': rng.choice(['early', 'late'])}}
+  if kind == 'aperture':
+    ap = dict(AP_FIXED) if rng.random() < 0.6 else {'min_load': 0.5, 'max_load': 2.0, 'jitter_min': 0, 'jitter_max': 0}
+    ap.update(min_size=rng.choice([1, 2, 4]), max_size=2 ** 31)
+    sc['ap'] = ap
+  ops = [['open'], ['step', rng.choice([-1, -1, 1, 2])]]
+  for _ in range(rng.randint(1, 4)):
+    x = rng.random()
+    ops.append(['join' if x < 0.8 else 'leave', rng.choice(s0) if rng.random() < 0.7 else rng.choice(names),
+                rng.choice([-1, -1, 0, 1])])
+  ops += [['release', rng.choice([-1, -1, 0, 1, 2])], ['settle']]
+  if sc['pol'] == 'manual':
+    ops += [['opendone', 0, 1, -1]] * 4
+  for _ in range(rng.randint(8, 26)):
+    x = rng.random()
+    if x < 0.6:
+      ops.append(['disp', 1 if rng.random() < 0.5 else 0, 0])
+    elif x < 0.78:
+      ops.append(['comp', rng.randrange(64), rng.choice(['reply', 'reply', 'error', 'timeout']), 0])
+    elif x < 0.9:
+      ops.append(['leave', rng.choice(names), -1])
+    elif x < 0.97:
+      ops.append(['join', rng.choice(names), -1])
+    else:
+      ops.append(['settle'])
+  if rng.random() < 0.5:
+    ops.append(['probe'])
+  sc['ops'] = ops
+  return sc
+
+
+def _family_flush_close():
+  """Channels that fail their in-flight requests SYNCHRONOUSLY inside Close() (as the mux transport's
+  _Shutdown does): every failure re-enters the balancer (PutWrapper -> __Put, the heap lock is
+  re-entrant) before Close() returns.  n = 2..6 members with 4 slow requests each; completions leave y
+  with 4 - cy, x with 4 - cx, the others with 3 or 2 in flight; x and y report Busy (not Open, requests
+  still in flight); `notice` dispatches find them at the heap root and mark them down; x leaves the
+  server set while down (closed at once: its requests fail inside Close()); traffic; y is Open again;
+  traffic; a new member joins; 3n requests.  Enumerated over n x rotation of (x, y) x notice x (cy, cx)."""
+  out = []
+  for n in (2, 3, 4, 5, 6):
+    for rot in range(n):
+      x, y = 1 + rot % n, 1 + (rot + 1) % n
+      for notice in sorted(set([1, max(2, 2 * n - 2), 2 * n])):
+        for cy, cx in ((3, 1), (3, 0), (2, 1)):
+          ops = [['open'], ['settle']] + [['disp', 1, 0]] * (4 * n)
+          ops += [['comp_n', y, 'reply', 0]] * cy + [['comp_n', x, 'reply', 0]] * cx
+          for e in range(1, n + 1):
+            if e not in (x, y):
+              ops += [['comp_n', e, 'reply', 0]] * (1 + (e + rot) % 2)
+          ops += [['chan_n', x, 3], ['chan_n', y, 3]] + [['disp', 1, 0]] * notice
+          ops += [['leave', x, -1]] + [['disp', 1, 0]] * 2 + [['chan_n', y, 2]] + [['disp', 1, 0]] * 2
+          ops += [['join', n + 1, -1]] + [['disp', 1, 0]] * (3 * n) + [['settle']]
+          out.append({'kind': 'heap', 's0': list(range(1, n + 1)), 'rseed': rot, 'pol': 'sync', 'shuffle_id': True,
+                      'load': {'mode': 'nonblock'}, 'cflush_all': 1, 'ops': ops})
+  return out
+
+
+def _gen_flush_close(rng, kind):
+  """Random histories with flushing Close(): several members down (Busy / Closed) at once with requests
+  in flight, one or more of them leaving, coming back, joins, dispatch-heavy traffic."""
+  n = rng.choice([2, 3, 4, 4, 5, 6])
+  sc = {'kind': kind, 's0': list(range(1, n + 1)), 'rseed': rng.randint(0, 10 ** 6), 'pol': rng.choice(['sync', 'sync', 'auto']),
+        'load': {'mode': 'nonblock'}, 'cflush_all': 1}
+  if kind == 'aperture':
+    ap = dict(AP_FIXED)
+    ap.update(min_size=rng.choice([2, 3, n]), max_size=2 ** 31)
+    sc['ap'] = ap
+  ops = [['open'], ['settle']] + [['disp', 1, 0]] * (rng.choice([2, 3, 4]) * n)
+  for _ in range(rng.randint(n, 3 * n)):
+    ops.append(['comp_n', rng.randint(1, n), rng.choice(['reply', 'reply', 'error']), rng.randint(0, 4)])
+  down = rng.sample(range(1, n + 1), rng.choice([2, 2, 3]) if n > 2 else 2)
+  for e in down:
+    ops.append(['chan_n', e, rng.choice([3, 3, 4])])
+  ops += [['disp', 1, 0]] * rng.randint(1, 2 * n + 2)
+  for _ in range(rng.randint(6, 22)):
+    x = rng.random()
+    if x < 0.5:
+      ops.append(['disp', 1, 0])
+    elif x < 0.62:
+      ops.append(['comp', rng.randrange(64), rng.choice(['reply', 'error', 'timeout']), rng.randint(0, 4)])
+    elif x < 0.77:
+      ops.append(['leave', rng.choice(down) if rng.random() < 0.8 else rng.randint(1, n + 1), -1])
+    elif x < 0.87:
+      ops.append(['chan_n', rng.choice(down), rng.choice([2, 2, 3, 4])])
+    elif x < 0.95:
+      ops.append(['join', rng.randint(1, n + 2), -1])
+    else:
+      ops.append(['chan', rng.randrange(64), rng.choice([3, 4, 2])])
+  ops += [['settle']]
+  sc['ops'] = ops
+  return sc
+
+
+def _family_open_raises():
+  """Aperture: the Open() of the channel created by an expansion raises SYNCHRONOUSLY (the layer below
+  cannot be set up; the exception surfaces in whatever triggered the expansion: the leave callback -
+  logged by the provider's worker - or the dispatching caller); a later expansion; the endpoint whose
+  channel failed leaves; further leaves and a dispatch.  Enumerated: min_size 1-2 x 1-2 extra idle
+  endpoints x trigger of the first expansion (leave of an active member / a member found down by a
+  dispatch) x trigger of the second x which Open() of the endpoint raises (1st, 1st and 2nd) x random seed
+  (the draw of random.choice)."""
+  out = []
+  for m in (1, 2):
+    for extra in (1, 2):
+      n = m + extra
+      for t1 in ('leave', 'down'):
+        for t2 in ('leave', 'down'):
+          for ks in ([1], [1, 2]):
+            for rs in (1, 2, 3):
+              ops = [['open'], ['settle']]
+              ops += [['leave', 1, -1]] if t1 == 'leave' else [['chan_n', 1, 4], ['disp', 0, 0], ['settle']]
+              ops += [['join', n + 1, -1], ['settle']]
+              ops += [['leave', n + 1, -1]] if t2 == 'leave' else [['chan', 0, 4], ['chan', 1, 4], ['disp', 0, 0], ['disp', 0, 0], ['settle']]
+              for e in range(m + 1, n + 1):
+                ops += [['leave', e, -1], ['settle']]
+              ops += [['disp', 0, 0], ['leave', 1, -1], ['leave', n + 1, -1]]
+              ops += [['leave', e, -1] for e in range(2, m + 1)] + [['disp', 0, 0], ['settle'], ['probe']]
+              ap = dict(AP_FIXED)
+              ap.update(min_size=m, max_size=2 ** 31)
+              out.append({'kind': 'aperture', 's0': list(range(1, n + 1)), 'rseed': rs, 'pol': 'sync', 'shuffle_id': True,
+                          'load': {'mode': 'nonblock'}, 'ap': ap, 'ops': ops,
+                          'ofail_ep': [[e, k] for e in range(m + 1, n + 1) for k in ks]})
+  return out
+
+
+def _gen_open_raises(rng, kind):
+  """Random join / leave / down-up / traffic histories in which some Open() calls of channels created
+  after the balancer's own open raise synchronously."""
+  n = rng.choice([2, 3, 3, 4, 5])
+  m = rng.choice([1, 1, 2])
+  names = list(range(1, n + 2))
+  sc = {'kind': kind, 's0': list(range(1, n + 1)), 'rseed': rng.randint(0, 10 ** 6), 'pol': rng.choice(['sync', 'sync', 'auto']),
+        'shuffle_id': True, 'load': {'mode': 'nonblock'}}
+  first_ok = n if kind == 'heap' else m       # channels opened by the balancer's own Open(): never raising here
+  if kind == 'aperture':
+    ap = dict(AP_FIXED) if rng.random() < 0.7 else {'min_load': 0.5, 'max_load': 2.0, 'jitter_min': 0, 'jitter_max': 0}
+    ap.update(min_size=m, max_size=2 ** 31)
+    sc['ap'] = ap
+  sc['ofail_ep'] = [[e, k] for e in names for k in ((2, 3) if e <= first_ok else (1, 2)) if rng.random() < 0.4]
+  ops = [['open'], ['settle']]
+  w = dict(disp=18, comp=8, chan=14, leave=30, join=22, settle=6, opendone=2)
+  keys = sorted(w)
+  tot = sum(w.values())
+  for _ in range(rng.randint(8, 26)):
+    x = rng.randrange(tot)
+    for kk in keys:
+      if x < w[kk]:
+        break
+      x -= w[kk]
+    if kk == 'disp':
+      ops.append(['disp', 1 if rng.random() < 0.5 else 0, 0])
+    elif kk == 'comp':
+      ops.append(['comp', rng.randrange(64), rng.choice(['reply', 'error']), 0])
+    elif kk == 'chan':
+      ops.append(['chan', rng.randrange(64), rng.choice([4, 4, 4, 2, 3])])
+    elif kk == 'leave':
+      ops.append(['leave', rng.choice(names), -1])
+    elif kk == 'join':
+      ops.append(['join', rng.choice(names), -1])
+    elif kk == 'settle':
+      ops.append(['settle'])
+    elif kk == 'opendone':
+      ops.append(['opendone', rng.randrange(8), 1, -1])
+  if rng.random() < 0.5:
+    ops.append(['probe'])
+  sc['ops'] = ops
+  return sc
+
+
+def _family_contract_dead():
+  """Aperture with jitter (and with load-based resizing): a member of the aperture dies (channel Closed,
+  still in the server set); a dispatch marks it down and pulls in a replacement; the jitter timer adds
+  one more node and then contracts the aperture - the dead node is the one taken out and handed back to
+  the idle set; a duplicate join for it; the other members leave; a request.  Enumerated: min_size 1-2 x
+  4 / 6 / 8 members x the member that dies x random seed (which idle endpoints the draws pick) x
+  jitter / load peak as the cause of the contraction."""
+  out = []
+  for m in (1, 2):
+    for n in (4, 6, 8):
+      for victim in range(1, m + 1):
+        for rs in (1, 2, 3, 4):
+          for cause in ('jitter', 'load'):
+            ops = [['open'], ['settle'], ['chan_n', victim, 4], ['disp', 1, 0], ['settle']]
+            if cause == 'jitter':
+              ops += [['adv', 2500], ['settle'], ['comp', 0, 'reply', 0], ['adv', 2500], ['settle']]
+            else:
+              ops += [['disp', 1, 0]] * 6 + [['adv', 1000]] + [['disp', 1, 0]] * 4 + [['adv', 3000], ['settle']]
+              ops += [['comp', 0, 'reply', 0], ['adv', 4000]] * 11 + [['settle']]
+            ops += [['join', victim, -1], ['settle']]
+            ops += [['leave', e, -1] for e in range(1, n + 1) if e != victim] + [['settle'], ['disp', 0, 0], ['settle'], ['probe']]
+            ap = {'min_size': m, 'max_size': 2 ** 31, 'min_load': 0.5, 'max_load': 2.0,
+                  'jitter_min': 2 if cause == 'jitter' else 0, 'jitter_max': 2 if cause == 'jitter' else 0}
+            out.append({'kind': 'aperture', 's0': list(range(1, n + 1)), 'rseed': rs, 'pol': 'sync', 'shuffle_id': True,
+                        'load': {'mode': 'nonblock'}, 'ap': ap, 'ops': ops})
+  return out
+
+
+def _gen_contract_dead(rng):
+  """Random aperture histories with jitter and load-based resizing ON and time advancing: members die
+  and come back, load peaks and decays, joins / leaves, duplicate joins."""
+  m = rng.choice([1, 1, 2, 3])
+  n = m + rng.randint(2, 6)
+  names = list(range(1, n + 2))
+  jm = rng.choice([0, 2, 2, 3])
+  ap = {'min_size': m, 'max_size': rng.choice([n, 2 ** 31]), 'min_load': rng.choice([0.3, 0.5]),
+        'max_load': rng.choice([1.0, 1.5, 2.0]), 'jitter_min': jm, 'jitter_max': jm + rng.choice([0, 0, 2]) if jm else 0}
+  sc = {'kind': 'aperture', 's0': list(range(1, n + 1)), 'rseed': rng.randint(0, 10 ** 6), 'pol': rng.choice(['sync', 'sync', 'auto']),
+        'load': {'mode': 'nonblock'}, 'ap': ap}
+  ops = [['open'], ['settle']]
+  w = dict(disp=26, comp=20, chan=12, adv=18, settle=6, leave=8, join=8, opendone=2)
+  keys = sorted(w)
+  tot = sum(w.values())
+  for _ in range(rng.randint(12, 40)):
+    x = rng.randrange(tot)
+    for kk in keys:
+      if x < w[kk]:
+        break
+      x -= w[kk]
+    if kk == 'disp':
+      ops.append(['disp', 1, 0])
+    elif kk == 'comp':
+      ops.append(['comp', rng.randrange(64), rng.choice(['reply', 'reply', 'error']), 0])
+    elif kk == 'chan':
+      ops.append(['chan', rng.randrange(64), rng.choice([4, 4, 4, 2, 2, 3])])
+    elif kk == 'adv':
+      ops.append(['adv', rng.choice([1000, 2500, 2500, 4000, 6000])])
+    elif kk == 'settle':
+      ops.append(['settle'])
+    elif kk == 'leave':
+      ops.append(['leave', rng.choice(names), -1])
+    elif kk == 'join':
+      ops.append(['join', rng.choice(names), -1])
+    elif kk == 'opendone':
+      ops.append(['opendone', rng.randrange(8), 1, -1])
+  ops.append(['settle'])
+  if rng.random() < 0.5:
+    ops.append(['probe'])
+  sc['ops'] = ops
+  return sc
+
+
 def _family_c05(kinds=('heap', 'aperture')):
   """Every history of <= 2 notifications over 2 names while GetServers blocks, x <= 1 after the
   release, x initial set x early/late snapshot: the init-gate space, enumerated."""
@@ -1341,25 +1667,43 @@ def cases(prop, tier, seed):
     fam = _family_c03()
     out.extend(fam if not quick else fam[::2])
     out.extend(_family_small())
-    n = 900 if quick else 8000
+    n = 750 if quick else 8000
     for i in range(n):
-      out.append(_gen_traffic(rng, 'heap' if i % 3 else 'aperture', prop))
+      sc = _gen_traffic(rng, 'heap' if i % 3 else 'aperture', prop)
+      if i % 5 == 4:
+        sc['cflush_all'] = 1      # channels that fail their pending requests inside Close()
+      out.append(sc)
     fam = _family_aperture_down()
     out.extend(fam if not quick else fam[int(seed) % 4::4])
-    for i in range(120 if quick else 2000):
+    for i in range(100 if quick else 2000):
       out.append(_gen_aperture_down(rng, prop))
+    fam = _family_early_join()
+    out.extend(fam if not quick else fam[int(seed) % 2::2])
+    for i in range(60 if quick else 1000):
+      out.append(_gen_early_join(rng, 'heap' if i % 2 else 'aperture'))
+    fam = _family_flush_close()
+    out.extend(fam if not quick else fam[int(seed) % 2::2])
+    for i in range(60 if quick else 1000):
+      out.append(_gen_flush_close(rng, 'heap' if i % 3 else 'aperture'))
   elif prop == 'C04':
     out.extend(_family_small())
     out.extend(_family_parked())
     for i in range(150 if quick else 1500):
       out.append(_gen_parked(rng, 'heap' if i % 2 else 'aperture'))
-    n = 1100 if quick else 8000
+    n = 1020 if quick else 8000
     for i in range(n):
-      out.append(_gen_traffic(rng, 'heap' if i % 3 else 'aperture', prop))
+      sc = _gen_traffic(rng, 'heap' if i % 3 else 'aperture', prop)
+      if i % 5 == 4:
+        sc['cflush_all'] = 1
+      out.append(sc)
     for i in range(80 if quick else 1000):
       out.append(_gen_aperture_down(rng, prop))
+    fam = _family_flush_close()
+    out.extend(fam if not quick else fam[int(seed) % 3::3])
+    for i in range(40 if quick else 800):
+      out.append(_gen_flush_close(rng, 'heap' if i % 3 else 'aperture'))
   else:
-    n = 600 if quick else 4000
+    n = 550 if quick else 4000
     for i in range(n):
       out.append(_gen_traffic(rng, 'heap' if i % 2 else 'aperture', prop))
     for i in range(n):
@@ -1368,8 +1712,16 @@ def cases(prop, tier, seed):
     out.extend(fam[int(seed) % 3::3] if quick else fam)
     fam = _family_closefail()
     out.extend(fam[int(seed) % 2::2] if quick else fam)
-    for i in range(200 if quick else 2500):
+    for i in range(150 if quick else 2500):
       out.append(_gen_closefail(rng, 'heap' if i % 2 else 'aperture'))
+    fam = _family_open_raises()
+    out.extend(fam if not quick else fam[int(seed) % 2::2])
+    for i in range(60 if quick else 1000):
+      out.append(_gen_open_raises(rng, 'aperture' if i % 4 else 'heap'))
+    fam = _family_contract_dead()
+    out.extend(fam if not quick else fam[int(seed) % 2::2])
+    for i in range(80 if quick else 1500):
+      out.append(_gen_contract_dead(rng))
   return out
 
 
